@@ -27,6 +27,11 @@ pub struct DefPlan {
     pub finish_out: Vec<usize>,
     pub in_right: bool,
     pub out_right: bool,
+    /// canonical application loop: every Deflate op supplies `in_chunk` NEW bytes and calls deflate
+    /// with `out_chunk` bytes of space until the input is consumed (and a requested flush completed);
+    /// deflateParams is retried with ample space on Z_BUF_ERROR. The resulting stream then depends only
+    /// on the chunk boundaries, flush kinds and parameter changes, not on per-call consumption.
+    pub canonical: bool,
 }
 
 impl DefPlan {
@@ -130,7 +135,7 @@ pub fn gen_plan(t: &mut Tape, po: &PlanOpts) -> DefPlan {
         4 => vec![0, 5, 0, 6, 1 << 20],
         _ => vec![t.pick(&DCHUNKS).max(1), t.pick(&DCHUNKS).max(1)],
     };
-    DefPlan { cfg, data, dict, gz, ops, cycles, finish_out, in_right: !t.chance(48), out_right: !t.chance(64) }
+    DefPlan { cfg, data, dict, gz, ops, cycles, finish_out, in_right: !t.chance(48), out_right: !t.chance(64), canonical: false }
 }
 
 #[derive(Clone, Debug)]
@@ -565,6 +570,87 @@ pub fn run_deflate_with<B: DefBack>(plan: &DefPlan, ar: &Arenas) -> DefRun {
     'ops: while opi < total_ops && run.ncalls < max_calls {
         let op = plan.ops[opi % plan.ops.len()].clone();
         opi += 1;
+        if plan.canonical {
+            match op {
+                DefOp::Deflate { in_chunk, out_chunk, flush } => {
+                    let chunk_end = (pos + in_chunk).min(data.len());
+                    // keep the number of calls per session bounded (tiny chunks only on small inputs)
+                    let mut oc = out_chunk.max(1).max(data.len() / 4096);
+                    let mut guard = 0usize;
+                    loop {
+                        let (co, broken) = do_call!(0u8, chunk_end - pos, oc, flush, 0, 0);
+                        if broken {
+                            break 'ops;
+                        }
+                        match co.rc {
+                            Z_OK | Z_BUF_ERROR => {}
+                            _ => {
+                                viol(&mut run, "C06", "deflate/status", format!("deflate(flush {}) returned {} in a legal session", flush, rc_name(co.rc)));
+                                break 'ops;
+                            }
+                        }
+                        guard += 1;
+                        if co.avail_in == 0 && (flush == Z_NO_FLUSH || co.avail_out > 0) {
+                            if matches!(flush, Z_PARTIAL_FLUSH | Z_SYNC_FLUSH | Z_FULL_FLUSH) {
+                                run.flush_points.push(FlushPoint { flush, out_len: run.out.len(), in_len: pos, delayed: guard > 1, call_index: run.ncalls, rc: co.rc });
+                            }
+                            break;
+                        }
+                        if co.avail_in == 0 {
+                            // only the completion of the flush is outstanding: zlib documents that a flush
+                            // marker is repeated when the previous call ended with avail_out == 0 exactly
+                            // after it, so the application must come back with more room
+                            oc = (oc * 2).max(64).min(1 << 20);
+                        }
+                        if guard > 2_000_000 || run.ncalls >= max_calls {
+                            viol(&mut run, "C06", "deflate/no-progress", "canonical loop did not consume its input chunk".to_string());
+                            break 'ops;
+                        }
+                    }
+                }
+                DefOp::Params { in_chunk: _, out_chunk, level, strategy } => {
+                    let mut oc = out_chunk.max(1);
+                    let mut tries = 0;
+                    loop {
+                        let (co, broken) = do_call!(1u8, 0usize, oc, Z_BLOCK, level, strategy);
+                        if broken {
+                            break 'ops;
+                        }
+                        run.switches.push(ParamSwitch { at_in: pos, level, strategy, rc: co.rc });
+                        match co.rc {
+                            Z_OK => {
+                                cur_level = level;
+                                cur_strategy = if B::IS_WRAPPER { 0 } else { strategy };
+                                break;
+                            }
+                            Z_BUF_ERROR => {
+                                oc = 1 << 20;
+                                tries += 1;
+                                if tries > 8 {
+                                    viol(&mut run, "C06", "deflateParams/buf-error-forever", "deflateParams keeps returning Z_BUF_ERROR with ample output space".to_string());
+                                    break 'ops;
+                                }
+                            }
+                            Z_STREAM_ERROR if B::IS_WRAPPER => break,
+                            _ => {
+                                viol(&mut run, "C06", "deflateParams/status", format!("deflateParams({}, {}) returned {} in a legal session", level, strategy, rc_name(co.rc)));
+                                break 'ops;
+                            }
+                        }
+                    }
+                }
+                DefOp::Tune { good, lazy, nice, chain } => {
+                    if !B::IS_WRAPPER {
+                        let rc = be.tune(good, lazy, nice, chain);
+                        if rc != Z_OK {
+                            viol(&mut run, "C06", "deflateTune/status", format!("deflateTune returned {}", rc_name(rc)));
+                            break 'ops;
+                        }
+                    }
+                }
+            }
+            continue 'ops;
+        }
         match op {
             DefOp::Deflate { in_chunk, out_chunk, flush } => {
                 // a pending flush must be repeated (same flush value) until it completes
